@@ -38,3 +38,10 @@ Theorem C16_family_needed :
 Proof. exact family_needed. Qed.
 Print Assumptions C16_family_needed.
 
+
+Theorem C16_names_resolve_case_insensitively :
+  Datatypes.length gen_name_lookups = 28%nat /\ forallb (fun '(_, want, got) => (want =?
+    got)%string) gen_name_lookups = true.
+Proof. exact names_resolve_case_insensitively. Qed.
+Print Assumptions C16_names_resolve_case_insensitively.
+
